@@ -41,6 +41,9 @@ from mlinsights.sklapi import SkBaseTransformLearner, SkBaseTransformStacking
 
 EXACT = (0.0, 0.0)
 TOL = (1e-9, 1e-12)
+# scikit-learn computes euclidean distances as ||x||^2 - 2 x.c + ||c||^2: the
+# cancellation error depends on the batch shape (relative 1e-8 observed)
+TOL_DIST = (1e-6, 1e-8)
 
 PLinReg = P.make_peer(LinearRegression)
 PLogReg = P.make_peer(LogisticRegression)
@@ -80,15 +83,27 @@ class Data:
         self.desc = desc or {}
         self._X0 = X.copy() if isinstance(X, numpy.ndarray) else None
 
+    def frame(self):
+        """The training features as a DataFrame (same object on every call, so
+        that a write into it is seen by the byte comparison)."""
+        if getattr(self, "_frame", None) is None:
+            self._frame = U.as_frame(self.X.copy())
+        return self._frame
+
+    def snapshot_frame(self):
+        return None if getattr(self, "_frame", None) is None else U.C.ahash(self._frame)
+
     def restore(self):
         """Configurations documented to write into X (copy_x=False,
         copy_X=False) may do so: every operation starts from the original
         bytes."""
         if self._X0 is not None:
             self.X[...] = self._X0
+            if getattr(self, "_frame", None) is not None:
+                self._frame.iloc[:, :] = self._X0
 
     def snapshot(self):
-        return (U.C.ahash(self.X), U.C.ahash(self.y), U.C.ahash(self.w))
+        return (U.C.ahash(self.X), U.C.ahash(self.y), U.C.ahash(self.w), self.snapshot_frame())
 
 
 def draw_data(ch, kind, label="A", n_lo=6, n_hi=40, allow_weights=True, n_min=None):
@@ -133,11 +148,16 @@ def draw_data(ch, kind, label="A", n_lo=6, n_hi=40, allow_weights=True, n_min=No
     if allow_weights and ch.boolean("w", 0.3, "weights" + label):
         w = numpy.round(rs.rand(n) * 3 + 0.25, 3)
         desc["weights"] = True
+    if ch.boolean("w", 0.15, "frame" + label):
+        desc["as_frame"] = True
     m = ch.integer("w", 1, 8, "m" + label)
     Xp = numpy.vstack([X[rs.permutation(n)[: min(m, n)]], rs.randn(m, d) * 1.5 + 0.1])
     if kind == "nonneg":
         Xp = numpy.abs(Xp) + 0.01
-    return Data(kind, numpy.ascontiguousarray(X), y, w, numpy.ascontiguousarray(Xp), desc)
+    data = Data(kind, numpy.ascontiguousarray(X), y, w, numpy.ascontiguousarray(Xp), desc)
+    if desc.get("as_frame"):
+        data.frame()  # exists before the first snapshot is taken
+    return data
 
 
 def draw_frame(ch, label="A"):
@@ -165,6 +185,7 @@ def draw_frame(ch, label="A"):
 
 class Spec:
     name = None
+    frame_ok = False  # fit / predict document DataFrame input
     kind = "reg"
     methods = (("predict", TOL),)
     rowwise = ()  # methods with row-wise semantics (subset of methods)
@@ -182,9 +203,12 @@ class Spec:
         kw = {}
         if data.w is not None and self.weights:
             kw["sample_weight"] = data.w
+        X = data.X
+        if self.frame_ok and data.desc.get("as_frame") and isinstance(X, numpy.ndarray):
+            X = data.frame()
         if data.y is None:
-            return (data.X,), kw
-        return (data.X, data.y), kw
+            return (X,), kw
+        return (X, data.y), kw
 
     def exempt_input_write(self, cfg):
         return False
@@ -236,11 +260,14 @@ class SPiecewiseRegressor(Spec):
         cfg = _binner(ch, "reg")
         cfg["local"] = ch.choice("w", ["linreg", "tag", "tree"], "local")
         cfg["n_jobs"] = ch.choice("w", [None, 2, 3], "n_jobs")
+        cfg["verbose"] = ch.weighted("w", [(False, 4), (True, 1)], "verbose")
         return cfg
+
+    frame_ok = True
 
     def build(self, cfg):
         local = {"linreg": PLinReg(), "tag": P.TagRegressor(), "tree": PTreeReg(max_depth=2, random_state=0)}[cfg["local"]]
-        return PiecewiseRegressor(binner=_mk_binner(cfg, False), estimator=local, n_jobs=cfg["n_jobs"])
+        return PiecewiseRegressor(binner=_mk_binner(cfg, False), estimator=local, n_jobs=cfg["n_jobs"], verbose=cfg.get("verbose", False))
 
 
 class SPiecewiseClassifier(Spec):
@@ -255,11 +282,14 @@ class SPiecewiseClassifier(Spec):
         cfg["local"] = ch.choice("w", ["logreg", "tag", "tree"], "local")
         cfg["n_jobs"] = ch.choice("w", [None, 2, 3], "n_jobs")
         cfg["random_state"] = ch.choice("w", [None, 0, 7], "rs")
+        cfg["verbose"] = ch.weighted("w", [(False, 4), (True, 1)], "verbose")
         return cfg
+
+    frame_ok = True
 
     def build(self, cfg):
         local = {"logreg": PLogReg(max_iter=60), "tag": P.TagClassifier(), "tree": PTreeClf(max_depth=2, random_state=0)}[cfg["local"]]
-        return PiecewiseClassifier(binner=_mk_binner(cfg, True), estimator=local, n_jobs=cfg["n_jobs"], random_state=cfg["random_state"])
+        return PiecewiseClassifier(binner=_mk_binner(cfg, True), estimator=local, n_jobs=cfg["n_jobs"], random_state=cfg["random_state"], verbose=cfg.get("verbose", False))
 
     def observables(self, est, cfg):
         ms = [m for m in self.methods]
@@ -299,6 +329,7 @@ class SPiecewiseTreeRegressor(Spec):
 
 
 class SDecisionTreeLogReg(Spec):
+    frame_ok = True
     name = "DecisionTreeLogisticRegression"
     kind = "clf2"
     methods = (("predict", EXACT), ("predict_proba", TOL), ("decision_path", EXACT))
@@ -342,7 +373,7 @@ class SDecisionTreeLogReg(Spec):
 class SKMeansL1L2(Spec):
     name = "KMeansL1L2"
     kind = "clu"
-    methods = (("predict", EXACT), ("transform", TOL))
+    methods = (("predict", EXACT), ("transform", TOL_DIST))
     rowwise = ("predict", "transform")
     n_min = 8
 
@@ -380,7 +411,7 @@ class SKMeansL1L2(Spec):
 class SConstraintKMeans(Spec):
     name = "ConstraintKMeans"
     kind = "clu"
-    methods = (("predict", EXACT), ("transform", TOL))
+    methods = (("predict", EXACT), ("transform", TOL_DIST))
     rowwise = ("predict", "transform")
     n_min = 8
 
@@ -392,11 +423,21 @@ class SConstraintKMeans(Spec):
             "kmeans0": ch.weighted("w", [(True, 3), (False, 1)], "kmeans0"),
             "max_iter": ch.choice("w", [100, 7, 20], "max_iter"),
             "copy_x": ch.weighted("w", [(True, 4), (False, 1)], "copy_x"),
+            "history": ch.weighted("w", [(False, 3), (True, 1)], "history"),
+            "learning_rate": ch.choice("w", [1.0, 0.5], "lr"),
         }
 
     def build(self, cfg):
         return ConstraintKMeans(
-            n_clusters=cfg["k"], strategy=cfg["strategy"], random_state=cfg["random_state"], kmeans0=cfg["kmeans0"], max_iter=cfg["max_iter"], n_init=2, copy_x=cfg["copy_x"]
+            n_clusters=cfg["k"],
+            strategy=cfg["strategy"],
+            random_state=cfg["random_state"],
+            kmeans0=cfg["kmeans0"],
+            max_iter=cfg["max_iter"],
+            n_init=2,
+            copy_x=cfg["copy_x"],
+            history=cfg.get("history", False),
+            learning_rate=cfg.get("learning_rate", 1.0),
         )
 
     def exempt_input_write(self, cfg):
@@ -410,7 +451,7 @@ class SConstraintKMeans(Spec):
 class SClassifierAfterKMeans(Spec):
     name = "ClassifierAfterKMeans"
     kind = "clf"
-    methods = (("predict", EXACT), ("predict_proba", TOL), ("decision_function", TOL))
+    methods = (("predict", EXACT), ("predict_proba", TOL_DIST), ("decision_function", TOL_DIST))
     rowwise = ("predict", "predict_proba", "decision_function")
     n_min = 10
 
@@ -453,10 +494,16 @@ class SQuantileLinearRegression(Spec):
             "fit_intercept": ch.choice("w", [True, False], "fi"),
             "max_iter": ch.choice("w", [10, 3], "mi"),
             "copy_X": ch.weighted("w", [(True, 4), (False, 1)], "copy_X"),
+            "positive": ch.weighted("w", [(False, 3), (True, 1)], "positive"),
+            "delta": ch.choice("w", [0.0001, 0.01], "delta"),
         }
 
+    frame_ok = True
+
     def build(self, cfg):
-        return QuantileLinearRegression(quantile=cfg["quantile"], fit_intercept=cfg["fit_intercept"], max_iter=cfg["max_iter"], copy_X=cfg["copy_X"])
+        return QuantileLinearRegression(
+            quantile=cfg["quantile"], fit_intercept=cfg["fit_intercept"], max_iter=cfg["max_iter"], copy_X=cfg["copy_X"], positive=cfg.get("positive", False), delta=cfg.get("delta", 0.0001)
+        )
 
     def exempt_input_write(self, cfg):
         return not cfg["copy_X"]
@@ -469,11 +516,18 @@ class STransformedTargetRegressor2(Spec):
     rowwise = ("predict",)
 
     def draw(self, ch):
-        return {"transformer": ch.choice("w", ["log", "log1p", "log(1+x)"], "tr"), "local": ch.choice("w", ["linreg", "tree"], "local")}
+        return {
+            "transformer": ch.choice("w", ["log", "log1p", "log(1+x)"], "tr"),
+            "local": ch.choice("w", ["linreg", "tree", None], "local"),
+            "as_object": ch.weighted("w", [(False, 3), (True, 1)], "tr-object"),
+        }
 
     def build(self, cfg):
-        local = {"linreg": PLinReg(), "tree": PTreeReg(max_depth=2, random_state=0)}[cfg["local"]]
-        return TransformedTargetRegressor2(regressor=local, transformer=cfg["transformer"])
+        from mlinsights.mlmodel import FunctionReciprocalTransformer
+
+        local = {"linreg": PLinReg(), "tree": PTreeReg(max_depth=2, random_state=0), None: None}[cfg["local"]]
+        tr = FunctionReciprocalTransformer(cfg["transformer"]) if cfg.get("as_object") else cfg["transformer"]
+        return TransformedTargetRegressor2(regressor=local, transformer=tr)
 
 
 class STransformedTargetClassifier2(Spec):
@@ -483,11 +537,16 @@ class STransformedTargetClassifier2(Spec):
     rowwise = ("predict", "predict_proba")
 
     def draw(self, ch):
-        return {"local": ch.choice("w", ["logreg", "tree"], "local")}
+        return {"local": ch.choice("w", ["logreg", "tree", None], "local"), "transformer": ch.choice("w", ["permute", "object-rs1", "object-rs7"], "tr")}
 
     def build(self, cfg):
-        local = {"logreg": PLogReg(max_iter=60), "tree": PTreeClf(max_depth=2, random_state=0)}[cfg["local"]]
-        return TransformedTargetClassifier2(classifier=local, transformer="permute")
+        from mlinsights.mlmodel import PermutationReciprocalTransformer
+
+        local = {"logreg": PLogReg(max_iter=60), "tree": PTreeClf(max_depth=2, random_state=0), None: None}[cfg["local"]]
+        tr = cfg.get("transformer", "permute")
+        if tr != "permute":
+            tr = PermutationReciprocalTransformer(random_state=int(tr[-1]))
+        return TransformedTargetClassifier2(classifier=local, transformer=tr)
 
 
 class SExtendedFeatures(Spec):
